@@ -12,7 +12,7 @@ import (
 // finders, the markup parsers and the two-pass logic. docspec = template id; the
 // members inside a template rotate with the PRNG of the docGen.
 
-const nRichDocs = 21
+const nRichDocs = 23
 
 func pagerHTML(g *docGen, style string, n, k int) string {
 	var sb strings.Builder
@@ -162,6 +162,20 @@ func richDoc(id int, g *docGen) string {
 			`<a href="/story/view?tag=go&amp;tag=web&amp;pg=3">3</a> <a href="/story/view?pg=4&amp;pg=5">4</a> <a href="/story/view?a=1&amp;pg=5&amp;b=2&amp;b=3">5</a></div>`)
 	case 19: // a pager with gaps on path-component URLs: several pattern candidates share the number list
 		body.WriteString("<div>" + story(3) + `</div><div><a href="/zqt/12/p/1">1</a> <a href="/zqt/12/p/3">3</a> <a href="/zqt/12/p/5">5</a></div>`)
+	case 20: // the document names its own base URL; paging links resolve under it
+		head.WriteString(`<base href="https://example.com/story/">`)
+		body.WriteString("<div>" + story(3) + `</div><div><a href="part/1">1</a> <strong>2</strong> <a href="part/3">3</a> <a href="part/3">Next</a></div>`)
+	case 21: // UTF-8 text with soft hyphens, decomposed accents and umlauts (what dom.Parse normalises)
+		u := func(n int) string {
+			ws := []string{"Stra\u00dfen\u00adbahn", "Cafe\u0301", "u\u0308ber", "na\u00efve", "Gr\u00fc\u00dfe", "re\u0301sume\u0301", "Donau\u00addampf\u00adschiff", "\u00e9t\u00e9"}
+			var sb strings.Builder
+			for i := 0; i < n; i++ {
+				sb.WriteString(ws[r.Intn(len(ws))] + " " + g.words(1) + " ")
+			}
+			return sb.String()
+		}
+		head.WriteString(`<meta charset="utf-8">`)
+		body.WriteString("<div><h1>" + u(3) + "</h1><p>" + u(40) + "</p><p>" + u(35) + "</p><p>" + u(30) + "</p></div>")
 	default: // a random abstract document through the doc-family concretiser
 		forest := randomForest(r, 14)
 		return g.page(forest, docPlaces[r.Intn(len(docPlaces))])
